@@ -11,6 +11,7 @@ from __future__ import annotations
 from functools import lru_cache
 import itertools as itt
 
+from ..builder import NAMES4, build_ops, replay_sequence, run_sequences
 from ..graphs import G, enum_D, enum_L, enum_O, is_acyclic, msep, subsets
 from ..runner import Res
 from ..y0util import V, snapshot, to_y0
@@ -33,7 +34,9 @@ def _universe(tier):
 def shards(tier):
     n = len(_universe(tier))
     size = 64 if tier == "quick" else 128
-    return [(i, min(i + size, n)) for i in range(0, n, size)]
+    # builder phase: one live graph object grown edge by edge; after every insertion every query, then a copy of the graph is
+    # extended by one edge and the original (and the copy) are asked again
+    return [(i, min(i + size, n)) for i in range(0, n, size)] + [("build", i) for i in range(len(build_ops(NAMES4)))]
 
 
 def describe(tier):
@@ -45,7 +48,10 @@ def describe(tier):
             else "agreement: L(2..4) all labelled ADMGs + O(5, <=5 edges); general: all cyclic directed mixed graphs on 2, 3 "
             "nodes + four-node ones with <=5 edges"
         )
-        + "; every ordered pair (a,b), every conditioning set C (graphs up to four nodes: given as list, frozenset and one-shot generator)",
+        + "; every ordered pair (a,b), every conditioning set C (graphs up to four nodes: given as list, frozenset and one-shot generator)"
+        "; builder sequences: every sequence of 3 edge insertions over 4 names on one live graph object, every query after each "
+        "insertion, then for every non-adjacent pair a copy of the graph gets one more edge and both the original and the copy are "
+        "asked about that pair under every conditioning set",
         "rule": "state = (graph, a, b, C); transition = one are_sigma_separated call compared with the path-definition "
         "d-separation oracle (acyclic) / with the reversed-argument call and the adjacency rule (all graphs)",
         "assumptions": ["oracle: path definition of d-separation on the latent-expanded DAG (mc.graphs.msep)"],
@@ -110,7 +116,65 @@ def explore_graph(res: Res, kind, g: G, only=None):
         res.violation("side_effect", {"graph": g.to_json()}, "the caller's graph was modified")
 
 
+def _ask(res, y, g: G, a, b, case, clause):
+    from y0.algorithm.separation.sigma_separation import are_sigma_separated
+
+    rest = [v for v in g.nodes if v not in (a, b)]
+    for c in subsets(rest):
+        res.transitions += 1
+        cs = dict(case, a=a, b=b, C=list(c))
+        try:
+            got = are_sigma_separated(y, V(a), V(b), conditions=[V(x) for x in c])
+        except Exception as e:  # noqa
+            res.violation("exception", cs, f"raised {type(e).__name__}: {e}")
+            continue
+        want = msep(g, a, b, c)
+        if bool(got) != want:
+            res.violation(clause, cs, f"sigma-separated={got}, d-separated (oracle)={want}")
+            return False
+    return True
+
+
+def _builder_judge(res):
+    def judge(y, g, hist):
+        res.states += 1
+        base = {"graph": g.to_json(), "kind": "acyclic", "builder_ops": hist}
+        for a, b in itt.combinations(g.nodes, 2):
+            if not _ask(res, y, g, a, b, base, "agreement"):
+                return False
+        adj = {frozenset(e) for e in g.di} | {frozenset(e) for e in g.bi}
+        for a, b in itt.permutations(g.nodes, 2):
+            if frozenset((a, b)) in adj:
+                continue
+            for kind in ("d", "b"):
+                if kind == "b" and a > b:
+                    continue
+                if kind == "d" and not is_acyclic(g.nodes, list(g.di) + [(a, b)]):
+                    continue
+                h = y.copy()
+                if kind == "d":
+                    h.add_directed_edge(V(a), V(b))
+                    gh = G(g.nodes, tuple(g.di) + ((a, b),), g.bi)
+                else:
+                    h.add_undirected_edge(V(a), V(b))
+                    gh = G(g.nodes, g.di, tuple(g.bi) + ((a, b),))
+                cs = dict(base, copy_edit=[kind, a, b])
+                # the original is unchanged by an edit of its copy; the copy answers for its own edges
+                if not _ask(res, y, g, a, b, cs, "agreement_after_copy_edit"):
+                    return False
+                if not _ask(res, h, gh, a, b, dict(cs, asked="copy"), "agreement_after_copy_edit"):
+                    return False
+        res.outcomes["builder_step_ok"] += 1
+        return True
+
+    return judge
+
+
 def work(shard, tier, seed):
+    if shard[0] == "build":
+        res = Res()
+        run_sequences(shard[1], 3, _builder_judge(res), names=NAMES4)
+        return res
     lo, hi = shard
     res = Res()
     for kind, g in _universe(tier)[lo:hi]:
@@ -121,5 +185,8 @@ def work(shard, tier, seed):
 def replay(case, clause=None):
     g = G.from_json(case["graph"])
     res = Res()
+    if "builder_ops" in case:
+        replay_sequence(case["builder_ops"], _builder_judge(res))
+        return [v for v in res.violations if v["input"].get("builder_ops") == case["builder_ops"]][:1]
     explore_graph(res, case.get("kind", "acyclic"), g, only=case)
     return [v for v in res.violations if clause is None or v["clause"] == clause]
